@@ -145,13 +145,19 @@ def cnet_replay(op, op_param, argws, dw, vals, simname='CompiledSimulation'):
     from spec.netsem import netsem_int
     pyrtl.reset_working_block()
     ins = [pyrtl.Input(w, 'i%d' % i) for i, w in enumerate(argws)]
+    vals = list(vals)
+    if op == '*' and op_param is not None:
+        _, ci, cv = op_param                      # that operand is a Const of the given value
+        ins[ci] = pyrtl.Const(cv, bitwidth=argws[ci])
+        vals[ci] = cv
+        op_param = None
     dest = pyrtl.WireVector(dw, 'dest_w')
     net = pyrtl.LogicNet(op, tuple(op_param) if op_param is not None else None, tuple(ins), (dest,))
     pyrtl.working_block().add_net(net)
     o = pyrtl.Output(dw, 'o')
     o <<= dest
     sim = getattr(pyrtl, simname)()
-    sim.step({'i%d' % i: v for i, v in enumerate(vals)})
+    sim.step({'i%d' % i: v for i, v in enumerate(vals) if isinstance(ins[i], pyrtl.Input)})
     got = sim.inspect('o')
     exp = netsem_int(op, op_param, list(vals), list(argws), dw)
     return dict(failed=(got != exp), observed=got, expected=exp)
